@@ -439,11 +439,12 @@ func (m *Uint64Map) EachItem(f func(id uint64, tagged []Tagged, goroutine int) e
 	for i := 0; i < goroutines; i++ {
 		go readBuckets(i)
 	}
+feed:
 	for bucket := 0; bucket < m.Layout.SentinelBucket(); bucket++ {
 		select {
 		case buckets <- bucket:
 		case <-cancel:
-			break
+			break feed
 		}
 	}
 	close(buckets)
